@@ -169,8 +169,62 @@ def run_case(case):
             labels.add("cycle-unreachable-from-first")
         if any(n in R.deps[n] for n in R.deps):
             labels.add("self-loop")
+    if defects and not viols and not any(case.get("relwd", [])) and int(digest_of(case), 16) % 3 == 0:
+        viols += cli_side_effects(desc, defects)
+        labels.add("cli-side-effects")
     nt = len(desc["targets"]) >= 3 and (len(defects) == 1 or (not defects and R.depth() >= 3))
     return CaseResult(viols, nt, sorted(labels))
+
+
+def digest_of(case):
+    from vlib.runner import digest
+
+    return digest(case)
+
+
+MSG_KIND = (("provided by targets", "multiple-providers"), ("depends on itself", "cycle"),
+            ("does not exist and is not provided", "unresolved-input"))
+
+
+def cli_side_effects(desc, defects):
+    """On an invalid workflow every command exits non-zero, names a defect that applies, and changes nothing."""
+    from vlib import project
+
+    viols = []
+    with project.Project(desc, backend="slurm") as proj:
+        proj.set_files({p: t for p, t in desc["files"].items()})
+        import os
+
+        os.makedirs(proj.path(".gwf/logs"), exist_ok=True)
+        for fn in ("Gone.stdout", "Gone.stderr", desc["targets"][0]["name"] + ".stdout"):
+            with open(proj.path(".gwf/logs/" + fn), "w") as f:
+                f.write("log of an earlier run\n")
+        with open(proj.path(".gwf/slurm-backend-tracked.json"), "w") as f:
+            f.write("{}")
+        before = proj.snapshot()
+        for args in (["status"], ["run"], ["run", "--dry-run"], ["clean", "--all", "-f"], ["touch"], ["cancel", "-f"],
+                     ["info"], ["status", "-f", "summary"], ["run", desc["targets"][0]["name"]]):
+            r = proj.gwf(args, input="y\n")
+            if r.code == 0:
+                viols.append(Violation({"kind": "command-succeeded-on-invalid-workflow", "cmd": args[0]},
+                                       f"`gwf {' '.join(args)}` exits 0 on a workflow with {sorted(defects)}"))
+            else:
+                named = {k for frag, k in MSG_KIND if frag in r.err}
+                if r.crashed or not (named & defects):
+                    viols.append(Violation({"kind": "error-does-not-name-applicable-defect", "cmd": args[0]},
+                                           f"`gwf {' '.join(args)}`: {r.brief()}; applicable {sorted(defects)}"))
+            d = proj.snap_diff(before, proj.snapshot())
+            if d:
+                viols.append(Violation({"kind": "side-effect-on-invalid-workflow", "cmd": " ".join(args[:2])},
+                                       f"`gwf {' '.join(args)}` on an invalid workflow changed {[(k, 'removed' if y is None else 'changed') for k, x, y in d][:4]}"))
+                before = proj.snapshot()
+            if proj.sim.mutating_log():
+                viols.append(Violation({"kind": "scheduler-command-on-invalid-workflow", "cmd": args[0]},
+                                       str([e["cmd"] for e in proj.sim.mutating_log()])))
+                proj.sim.log.clear()
+            if viols:
+                break
+    return viols
 
 
 def _cycle_nodes(R):
